@@ -3,6 +3,7 @@ import Hgxv.Proofs.C10Line
 import Hgxv.Proofs.C10Simplicial
 import Hgxv.Proofs.C10Bipartite
 import Hgxv.Proofs.C10Similarity
+import Hgxv.Proofs.C10Link
 import Mathlib.Tactic.NormNum.Inv
 import Mathlib.Tactic.NormNum.Ineq
 /-! # C10 — graph projections encode exactly the incidence structure of the hypergraph
@@ -520,3 +521,309 @@ example : incidentOK [[1, 2, 3], [2, 3, 4], [3, 4, 5]] ([1, 2, 3, 4, 5].map (inc
     1 2 (by decide) (by decide) (by decide)
   rw [hr] at hr'; cases hr'
   exact ⟨r, hr, h01, h12⟩
+
+/-! ## Links to the full container models: objects reached through ANY history
+
+Everything above takes listings as input.  `Hgxv/Proofs/C10Link.lean` reads the listings off the full container models
+(C01 `Hypergraph`, C02 `DirectedHypergraph`): `nodesH s`, `edgesH s`, `incidentH s n`, `incTableH s` are what
+`C01.answer s` returns for `get_nodes()`, `get_edges()`, `get_incident_edges(n)`; `edgesD s` is what `C02.edges s`
+returns; `bipartiteH`, `cliqueH`, `lineGraphH`, `simplicialH`, `directedLineGraphD` are the routines applied to those
+answers, i.e. to the object.  The theorems below quantify over EVERY history of well-formed public calls (`C01.Cmd` /
+`C02.Cmd`: constructor, copy, the 18 mutating calls, accepted or rejected; well-formed = the containers' own
+quantifier: hyperedges are node sets, directed sides non-empty and disjoint), every slot `i`, the object `s` in that
+slot and the ABSTRACT content `a` of the same slot after the same history (`C01.Spec` / `C02.Spec`: a list of nodes
+and a map from node sets to records) and state the result of the routine on the object in terms of `a` alone.
+No hypothesis about the object is left: all of them are discharged from `C01.Inv` / `C02.Inv` (`C01_inv`, `C02_inv`). -/
+
+/-- **What the object lists after any history** is the listing of the abstract content, and it has every property the
+theorems above assume: `get_nodes()` is the duplicate-free node list of `a`; `get_edges()` is the duplicate-free key list
+of `a`; `len(h)` is its length; for every node, `get_incident_edges(n)` answers (no exception) exactly the hyperedges of
+`get_edges()` that contain `n`, in that order; every hyperedge is a strictly increasing (hence duplicate-free) tuple of
+nodes of `get_nodes()`. -/
+theorem C10_link_listings (k : Nat) (cs : List C01.Cmd) (hwf : ∀ c ∈ cs, c.WF) (i : Nat) (s : C01.Store)
+    (a : C01.Spec) (hs : (C01.run (C01.init k) cs)[i]? = some s)
+    (ha : (C01.Spec.run (C01.Spec.init k) cs)[i]? = some a) :
+    C01.query (C01.run (C01.init k) cs) i .nodes = .nats (AL.keys a.nodes) ∧
+    C01.query (C01.run (C01.init k) cs) i (.edges {}) = .edges (AL.keys a.edges) ∧
+    C01.query (C01.run (C01.init k) cs) i .len = .int ((AL.keys a.edges).length : Nat) ∧
+    (∀ n ∈ AL.keys a.nodes,
+      C01.query (C01.run (C01.init k) cs) i (.incident n {}) = .edges (incident (AL.keys a.edges) n)) ∧
+    nodesH s = AL.keys a.nodes ∧ edgesH s = AL.keys a.edges ∧
+    incTableH s = (AL.keys a.nodes).map (incident (AL.keys a.edges)) ∧
+    (AL.keys a.nodes).Nodup ∧ (AL.keys a.edges).Nodup ∧
+    (∀ e ∈ AL.keys a.edges, e.Pairwise (· < ·) ∧ e.Nodup ∧ ∀ n ∈ e, n ∈ AL.keys a.nodes) := by
+  obtain ⟨h, rfl⟩ := history01 k cs hwf i s a hs ha
+  obtain ⟨e1, e2⟩ := abs_listings s h
+  have ok := listingOK_of_inv s h
+  rw [e1, e2]
+  simp only [C01.query, hs]
+  refine ⟨(nodesH_eq s).1, (edgesH_eq s).1, (edgesH_eq s).2.2, fun n hn => (incidentH_eq s h n hn).1,
+    (nodesH_eq s).2, (edgesH_eq s).2.1, incTableH_eq s h, ok.nodesNodup, ok.edgesNodup,
+    fun e he => ⟨ok.sorted e he, ok.edgeNodup e he, ok.members e he⟩⟩
+
+/-- **The incident table of every reachable object passes the check** the driver evaluates on the table of the real
+object (`incidentOK`: lists duplicate-free and made of hyperedges of `get_edges()`, members of one list share a node,
+every two intersecting hyperedges are together in some list). -/
+theorem C10_link_incident_table (k : Nat) (cs : List C01.Cmd) (hwf : ∀ c ∈ cs, c.WF) (i : Nat) (s : C01.Store)
+    (hs : (C01.run (C01.init k) cs)[i]? = some s) : incidentOK (edgesH s) (incTableH s) = true := by
+  have h := C01.run_inv cs (C01.init k) hwf (C01.init_inv k) s (List.mem_of_getElem? hs)
+  have ok := listingOK_of_inv s h
+  rw [incTableH_eq s h, (edgesH_eq s).2.1]
+  exact C10_incidentOK_of_listing _ _ ok.edgesNodup ok.members
+
+/-- **`line_graph` of any reachable object is the line graph of its abstract content.**  For every history, every
+threshold `thr > 0`, both distances, weighted or not: the routine run on the listing and on the incident table the
+object answers returns (no exception) the same as the definition-level enumeration on `a`; the result has one vertex
+`0..m-1` per hyperedge of `a` (in key order), `i — j` is an edge exactly when `i ≠ j` and the value (intersection size /
+Jaccard similarity) of the two keys is at least `thr`, with the value (or 1) as weight; and `_distance` was called
+exactly once for every unordered pair of distinct keys of `a` that share a node, for no other pair. -/
+theorem C10_link_line (k : Nat) (cs : List C01.Cmd) (hwf : ∀ c ∈ cs, c.WF) (i : Nat) (s : C01.Store)
+    (a : C01.Spec) (hs : (C01.run (C01.init k) cs)[i]? = some s)
+    (ha : (C01.Spec.run (C01.Spec.init k) cs)[i]? = some a) (d : Dist) (thr : Rat) (weighted : Bool) (hthr : 0 < thr) :
+    lineGraphH s d thr weighted = lineGraph (AL.keys a.nodes) (AL.keys a.edges) d thr weighted ∧
+    ∃ r, lineGraphH s d thr weighted = some r ∧
+      AL.keys r.g.nodes = List.range (AL.keys a.edges).length ∧
+      (∀ x y w, AL.get? r.g.adj (x, y) = some w ↔
+        ∃ (hx : x < (AL.keys a.edges).length) (hy : y < (AL.keys a.edges).length), x ≠ y ∧
+          thr ≤ distV d (AL.keys a.edges)[x] (AL.keys a.edges)[y] ∧
+          w = some (if weighted then distV d (AL.keys a.edges)[x] (AL.keys a.edges)[y] else 1)) ∧
+      r.vis.Nodup ∧
+      (∀ x y, (x, y) ∈ r.vis ↔
+        x < y ∧ ∃ (hx : x < (AL.keys a.edges).length) (hy : y < (AL.keys a.edges).length),
+          ∃ n, n ∈ (AL.keys a.edges)[x] ∧ n ∈ (AL.keys a.edges)[y]) := by
+  obtain ⟨_, _, _, _, _, e2, e3, _, hes, hE⟩ := C10_link_listings k cs hwf i s a hs ha
+  have heq : lineGraphH s d thr weighted = lineGraph (AL.keys a.nodes) (AL.keys a.edges) d thr weighted := by
+    unfold lineGraphH lineGraph
+    rw [e2, e3]
+  refine ⟨heq, ?_⟩
+  rw [heq]
+  exact C10_line _ _ d thr weighted hes (fun e he => (hE e he).2.1) (fun e he => (hE e he).2.2) hthr
+
+/-- **`clique_projection` of any reachable object**: `u — v` is an edge (without attributes) exactly when `u ≠ v` and
+some key of the abstract content contains both; the vertices are the nodes with a neighbour, plus all nodes of `a` when
+`keep_isolated`; no vertex twice; with `keep_isolated=True` the vertex set is exactly the node set of `a`. -/
+theorem C10_link_clique (k : Nat) (cs : List C01.Cmd) (hwf : ∀ c ∈ cs, c.WF) (i : Nat) (s : C01.Store)
+    (a : C01.Spec) (hs : (C01.run (C01.init k) cs)[i]? = some s)
+    (ha : (C01.Spec.run (C01.Spec.init k) cs)[i]? = some a) (keepIso : Bool) :
+    (∀ u v x, AL.get? (cliqueH keepIso s).adj (u, v) = some x ↔
+        x = none ∧ u ≠ v ∧ ∃ e ∈ AL.keys a.edges, u ∈ e ∧ v ∈ e) ∧
+    (∀ x, x ∈ AL.keys (cliqueH keepIso s).nodes ↔
+        (keepIso = true ∧ x ∈ AL.keys a.nodes) ∨ ∃ e ∈ AL.keys a.edges, x ∈ e ∧ ∃ y ∈ e, y ≠ x) ∧
+    (AL.keys (cliqueH keepIso s).nodes).Nodup ∧
+    (∀ x, x ∈ AL.keys (cliqueH true s).nodes ↔ x ∈ AL.keys a.nodes) := by
+  obtain ⟨_, _, _, _, e1, e2, _, _, _, hE⟩ := C10_link_listings k cs hwf i s a hs ha
+  unfold cliqueH
+  rw [e1, e2]
+  have hnd : ∀ e ∈ AL.keys a.edges, e.Nodup := fun e he => (hE e he).2.1
+  obtain ⟨c1, c2, c3⟩ := C10_clique keepIso (AL.keys a.nodes) (AL.keys a.edges) hnd
+  exact ⟨c1, c2, c3, C10_clique_keep_isolated _ _ hnd (fun e he => (hE e he).2.2)⟩
+
+/-- **`bipartite_projection` of any reachable object**: vertices `N0..N(n-1)` (`bipartite=0`), one per node of the
+abstract content in its order, then `E0..E(m-1)` (`bipartite=1`), one per key; `N_i — E_j` (symmetric, no attributes)
+exactly when node `i` belongs to key `j`; no edge inside a side; the id table maps `N_i` to node `i`, `E_j` to key `j`. -/
+theorem C10_link_bipartite (k : Nat) (cs : List C01.Cmd) (hwf : ∀ c ∈ cs, c.WF) (i : Nat) (s : C01.Store)
+    (a : C01.Spec) (hs : (C01.run (C01.init k) cs)[i]? = some s)
+    (ha : (C01.Spec.run (C01.Spec.init k) cs)[i]? = some a) :
+    AL.keys (bipartiteH s).g.nodes =
+      (List.range (AL.keys a.nodes).length).map BV.N ++ (List.range (AL.keys a.edges).length).map BV.E ∧
+    (∀ p, p < (AL.keys a.nodes).length → AL.get? (bipartiteH s).g.nodes (.N p) = some (some 0)) ∧
+    (∀ q, q < (AL.keys a.edges).length → AL.get? (bipartiteH s).g.nodes (.E q) = some (some 1)) ∧
+    (∀ p q x, AL.get? (bipartiteH s).g.adj (.N p, .E q) = some x ↔
+      x = none ∧ ∃ n e, (AL.keys a.nodes)[p]? = some n ∧ (AL.keys a.edges)[q]? = some e ∧ n ∈ e) ∧
+    (∀ u v x, AL.get? (bipartiteH s).g.adj (u, v) = some x → AL.get? (bipartiteH s).g.adj (v, u) = some x) ∧
+    (∀ p p', AL.get? (bipartiteH s).g.adj (.N p, .N p') = none) ∧
+    (∀ q q', AL.get? (bipartiteH s).g.adj (.E q, .E q') = none) ∧
+    (∀ p, AL.get? (bipartiteH s).idToObj (.N p) = (AL.keys a.nodes)[p]?.map Obj.node) ∧
+    (∀ q, AL.get? (bipartiteH s).idToObj (.E q) = (AL.keys a.edges)[q]?.map Obj.edge) := by
+  obtain ⟨_, _, _, _, e1, e2, _, hn, _, hE⟩ := C10_link_listings k cs hwf i s a hs ha
+  unfold bipartiteH
+  rw [e1, e2]
+  exact C10_bipartite _ _ hn (fun e he => (hE e he).2.2)
+
+/-- **`simplicial_complex` of any reachable object** is the downward closure of the abstract content: its hyperedges
+are exactly the strictly increasing tuples all of whose members lie in one key of `a`, listed once; in particular every
+key of `a` is among them. -/
+theorem C10_link_simplicial (k : Nat) (cs : List C01.Cmd) (hwf : ∀ c ∈ cs, c.WF) (i : Nat) (s : C01.Store)
+    (a : C01.Spec) (hs : (C01.run (C01.init k) cs)[i]? = some s)
+    (ha : (C01.Spec.run (C01.Spec.init k) cs)[i]? = some a) :
+    (∀ t, t ∈ simplicialH s ↔ t.Pairwise (· < ·) ∧ ∃ e ∈ AL.keys a.edges, ∀ x ∈ t, x ∈ e) ∧
+    (simplicialH s).Nodup ∧ (∀ e ∈ AL.keys a.edges, e ∈ simplicialH s) := by
+  obtain ⟨_, _, _, _, _, e2, _, _, _, hE⟩ := C10_link_listings k cs hwf i s a hs ha
+  unfold simplicialH
+  rw [e2]
+  have hsorted : ∀ e ∈ AL.keys a.edges, e.Pairwise (· < ·) := fun e he => (hE e he).1
+  obtain ⟨c1, c2⟩ := C10_simplicial (AL.keys a.edges) hsorted
+  exact ⟨c1, c2, fun e he => C10_simplicial_contains_edges _ hsorted e he⟩
+
+/-- **The object `simplicial_complex` returns.**  The routine ends with `S = Hypergraph(s_edges)`, `s_edges` a Python
+set: `buildH l` is the full C01 model of that constructor call for the order `l` in which the set happens to be iterated
+(any permutation of `simplicialH s`).  For every history and every such order: the constructor call is accepted (no
+exception); `S` is itself an object reached through a history of well-formed public calls - so `C01_inv`,
+`C01_refines`, `C01_incident_once` and every `C10_link_*` theorem apply to it again; `S.get_edges()` is `l`, i.e. exactly
+the strictly increasing tuples inside one key of the abstract content `a` (the downward closure, every member once); and
+the nodes of `S` are exactly the nodes that lie in some key of `a` (isolated nodes of `h` are not nodes of `S`). -/
+theorem C10_link_simplicial_object (k : Nat) (cs : List C01.Cmd) (hwf : ∀ c ∈ cs, c.WF) (i : Nat) (s : C01.Store)
+    (a : C01.Spec) (hs : (C01.run (C01.init k) cs)[i]? = some s)
+    (ha : (C01.Spec.run (C01.Spec.init k) cs)[i]? = some a) (l : List Edge) (hl : l.Perm (simplicialH s)) :
+    (buildH l).2 = .ok ∧
+    ((∀ c ∈ [C01.Cmd.on 0 (.addEdges l none none)], c.WF) ∧
+      (C01.run (C01.init 1) [.on 0 (.addEdges l none none)])[0]? = some (buildH l).1) ∧
+    edgesH (buildH l).1 = l ∧ (edgesH (buildH l).1).Nodup ∧
+    (∀ t, t ∈ edgesH (buildH l).1 ↔ t.Pairwise (· < ·) ∧ ∃ e ∈ AL.keys a.edges, ∀ x ∈ t, x ∈ e) ∧
+    (∀ n, n ∈ nodesH (buildH l).1 ↔ ∃ e ∈ AL.keys a.edges, n ∈ e) := by
+  obtain ⟨c1, c2, c3⟩ := C10_link_simplicial k cs hwf i s a hs ha
+  have hsorted : ∀ t ∈ l, t.Pairwise (· < ·) := fun t ht => ((c1 t).1 (hl.mem_iff.1 ht)).1
+  have hdf : ∀ t ∈ l, t.Nodup := fun t ht => (hsorted t ht).imp (fun h => Nat.ne_of_lt h)
+  have hcan : ∀ t ∈ l, C01.canon t = t := fun t ht =>
+    C01.canon_of_sorted ((hsorted t ht).imp (fun h => Nat.le_of_lt h))
+  have hnd : l.Nodup := hl.nodup_iff.2 c2
+  obtain ⟨b1, _, b3, b4⟩ := buildH_spec l hcan hnd hdf
+  refine ⟨b1, ⟨?_, rfl⟩, b3, by rw [b3]; exact hnd, ?_, ?_⟩
+  · intro c hc
+    simp only [List.mem_singleton] at hc
+    subst hc
+    exact hdf
+  · intro t
+    rw [b3, hl.mem_iff]
+    exact c1 t
+  · intro n
+    rw [b4]
+    constructor
+    · rintro ⟨t, ht, hn⟩
+      obtain ⟨_, e, he, hsub⟩ := (c1 t).1 (hl.mem_iff.1 ht)
+      exact ⟨e, he, hsub n hn⟩
+    · rintro ⟨e, he, hn⟩
+      exact ⟨e, hl.mem_iff.2 (c3 e he), hn⟩
+
+/-- **`directed_line_graph` of any reachable `DirectedHypergraph`.**  For every history of constructor calls, copies
+and public calls (C02's quantifier: sides non-empty and disjoint), the object `s` in a slot and the abstract content
+`a` of that slot: `get_edges()` answers the key list of `a` (distinct pairs, `len(h)` many, `get_sources` /
+`get_targets` its components); the routine returns - for BOTH distances, no `ZeroDivisionError`: sides of reachable
+hyperedges are non-empty - a digraph on `0..m-1` with an arc `x → y` exactly when `x ≠ y` and the value of (target set
+of key `x`, source set of key `y`) is at least `thr`, carrying the value as weight when `weighted`.  Every `thr`. -/
+theorem C10_link_directed_line (cs : List C02.Cmd) (hcs : ∀ c ∈ cs, c.WF) (slot : Nat) (s : C02.Store)
+    (a : C02.Spec) (hs : AL.get? (C02.runCmds [] cs) slot = some s)
+    (ha : AL.get? (C02.Spec.runCmds [] cs) slot = some a) (d : Dist) (thr : Rat) (weighted : Bool) :
+    C02.edges s .all false = some (AL.keys a.edges) ∧ C02.numEdges s = (AL.keys a.edges).length ∧
+    C02.sources s = (AL.keys a.edges).map (·.1) ∧ C02.targets s = (AL.keys a.edges).map (·.2) ∧
+    (AL.keys a.edges).Nodup ∧
+    ∃ g, directedLineGraphD s d thr weighted = some g ∧
+      AL.keys g.nodes = List.range (AL.keys a.edges).length ∧
+      ∀ x y w, AL.get? g.adj (x, y) = some w ↔
+        ∃ (hx : x < (AL.keys a.edges).length) (hy : y < (AL.keys a.edges).length), x ≠ y ∧
+          thr ≤ distV d (AL.keys a.edges)[x].2 (AL.keys a.edges)[y].1 ∧
+          w = if weighted then some (distV d (AL.keys a.edges)[x].2 (AL.keys a.edges)[y].1) else none := by
+  obtain ⟨h, rfl⟩ := history02 cs hcs slot s a hs ha
+  obtain ⟨q1, q2, q3, q4, q5⟩ := edgesD_eq s
+  obtain ⟨hnd, hwf⟩ := dlistingOK_of_inv s h
+  rw [abs_dlistings]
+  refine ⟨q1, q3, q4, q5, hnd, ?_⟩
+  unfold directedLineGraphD
+  rw [q2]
+  exact C10_directed_line _ d thr weighted hnd (fun _ e he f _ _ => Or.inl (hwf e he).2.1)
+
+/-! ### non-vacuity: concrete histories (`C10.demoH`, `C10.demoD` in `Proofs/C10Link.lean`)
+
+`demoH` (11 commands, 2 slots): insertions in permuted node order, a re-insertion, two removals (id gaps, isolated
+nodes 8, 9 left behind), `{1,2}` removed and inserted again (it moves to the end of the listing), a copy,
+`remove_node(3, keep_edges=True)` on the copy, a node added to the original afterwards. -/
+
+/-- the hypotheses of the link theorems hold for `demoH`, slot 0 and slot 1, and the listings are non-trivial -/
+example : (∀ c ∈ demoH, c.WF) ∧
+    (∃ s a, (C01.run (C01.init 2) demoH)[0]? = some s ∧ (C01.Spec.run (C01.Spec.init 2) demoH)[0]? = some a ∧
+      AL.keys a.nodes = [1, 2, 3, 8, 9, 4, 5, 7] ∧ AL.keys a.edges = [[1, 2, 3], [3, 4, 5], [1, 2]] ∧
+      nodesH s = [1, 2, 3, 8, 9, 4, 5, 7] ∧ edgesH s = [[1, 2, 3], [3, 4, 5], [1, 2]] ∧
+      incTableH s = [[[1, 2, 3], [1, 2]], [[1, 2, 3], [1, 2]], [[1, 2, 3], [3, 4, 5]], [], [], [[3, 4, 5]], [[3, 4, 5]], []] ∧
+      incidentOK (edgesH s) (incTableH s) = true) ∧
+    (∃ s a, (C01.run (C01.init 2) demoH)[1]? = some s ∧ (C01.Spec.run (C01.Spec.init 2) demoH)[1]? = some a ∧
+      AL.keys a.nodes = [1, 2, 8, 9, 4, 5] ∧ edgesH s = [[1, 2], [4, 5]] ∧
+      incTableH s = [[[1, 2]], [[1, 2]], [], [], [[4, 5]], [[4, 5]]]) :=
+  ⟨demoH_wf, ⟨_, _, rfl, rfl, by decide⟩, ⟨_, _, rfl, rfl, by decide⟩⟩
+
+/-- clique, bipartite and simplicial projections of the object in slot 0 of `demoH`, evaluated -/
+example : ∃ s, (C01.run (C01.init 2) demoH)[0]? = some s ∧
+    AL.get? (cliqueH false s).adj (5, 3) = some none ∧ AL.get? (cliqueH false s).adj (2, 4) = none ∧
+    AL.keys (cliqueH false s).nodes = [1, 2, 3, 4, 5] ∧ AL.keys (cliqueH true s).nodes = [1, 2, 3, 8, 9, 4, 5, 7] ∧
+    AL.get? (bipartiteH s).g.adj (.N 5, .E 1) = some none ∧ AL.get? (bipartiteH s).g.adj (.N 5, .E 2) = none ∧
+    AL.get? (bipartiteH s).idToObj (.N 5) = some (.node 4) ∧ AL.get? (bipartiteH s).idToObj (.E 2) = some (.edge [1, 2]) ∧
+    simplicialH s = [[], [1], [2], [3], [1, 2], [1, 3], [2, 3], [1, 2, 3], [4], [5], [3, 4], [3, 5], [4, 5], [3, 4, 5]] :=
+  ⟨_, rfl, by decide⟩
+
+/-- the object returned by `simplicial_complex` for slot 0 of `demoH` (set iterated in insertion order): accepted,
+14 hyperedges, the isolated nodes 7, 8, 9 of the input are not nodes of it -/
+example : ∃ s, (C01.run (C01.init 2) demoH)[0]? = some s ∧ (buildH (simplicialH s)).2 = .ok ∧
+    (edgesH (buildH (simplicialH s)).1).length = 14 ∧ nodesH (buildH (simplicialH s)).1 = [1, 2, 3, 4, 5] ∧
+    incidentH (buildH (simplicialH s)).1 4 = [[4], [3, 4], [4, 5], [3, 4, 5]] :=
+  ⟨_, rfl, by decide⟩
+
+/-- the line graph of the object in slot 0 of `demoH` (keys `{1,2,3}`, `{3,4,5}`, `{1,2}`), Jaccard, `s = 1/2`,
+weighted: `0 — 2` with weight 2/3, no edge `0 — 1` (1/5 < 1/2), and `_distance` was called for the pairs (0,1), (0,2)
+only -/
+example : ∃ s r, (C01.run (C01.init 2) demoH)[0]? = some s ∧ lineGraphH s .jaccard (1 / 2) true = some r ∧
+    AL.get? r.g.adj (2, 0) = some (some (2 / 3)) ∧ AL.get? r.g.adj (0, 1) = none ∧
+    (0, 1) ∈ r.vis ∧ (0, 2) ∈ r.vis ∧ (1, 2) ∉ r.vis := by
+  have key : ∀ s a, (C01.run (C01.init 2) demoH)[0]? = some s → (C01.Spec.run (C01.Spec.init 2) demoH)[0]? = some a →
+      AL.keys a.edges = [[1, 2, 3], [3, 4, 5], [1, 2]] →
+      ∃ r, lineGraphH s .jaccard (1 / 2) true = some r ∧
+        AL.get? r.g.adj (2, 0) = some (some (2 / 3)) ∧ AL.get? r.g.adj (0, 1) = none ∧
+        (0, 1) ∈ r.vis ∧ (0, 2) ∈ r.vis ∧ (1, 2) ∉ r.vis := by
+    intro s a hs ha hk
+    obtain ⟨_, r, h1, _, h3, _, h5⟩ := C10_link_line 2 demoH demoH_wf 0 s a hs ha .jaccard (1 / 2) true (by norm_num)
+    generalize AL.keys a.edges = es at hk h3 h5
+    subst hk
+    have i20 : interSize [1, 2] [1, 2, 3] = 2 := by decide
+    have u20 : unionSize [1, 2] [1, 2, 3] = 3 := by decide
+    have i01 : interSize [1, 2, 3] [3, 4, 5] = 1 := by decide
+    have u01 : unionSize [1, 2, 3] [3, 4, 5] = 5 := by decide
+    refine ⟨r, h1, ?_, ?_, ?_, ?_, ?_⟩
+    · rw [h3]; refine ⟨by decide, by decide, by decide, ?_, ?_⟩
+      · simp [distV, i20, u20]; norm_num
+      · simp [distV, i20, u20]
+    · cases h : AL.get? r.g.adj (0, 1) with
+      | none => rfl
+      | some w =>
+        obtain ⟨_, _, _, hle, _⟩ := (h3 0 1 w).1 h
+        exfalso; simp [distV, i01, u01] at hle; norm_num at hle
+    · rw [h5]; exact ⟨by decide, by decide, by decide, 3, by decide, by decide⟩
+    · rw [h5]; exact ⟨by decide, by decide, by decide, 1, by decide, by decide⟩
+    · rw [h5]; rintro ⟨_, _, _, n, hn1, hn2⟩
+      have g1 : n ∈ [3, 4, 5] := hn1
+      have g2 : n ∈ [1, 2] := hn2
+      simp at g1 g2; omega
+  obtain ⟨r, hr⟩ := key _ _ rfl rfl (by decide)
+  exact ⟨_, r, rfl, hr⟩
+
+/-- `demoD` (6 commands, 2 slots) is well-formed; the object in slot 0 lists `((3),(1,4))`, `((4),(2))`, `((1,2),(3))`
+(the last one removed and inserted again), the copy in slot 1 lost node 4 (`keep_edges=True`) -/
+example : (∀ c ∈ demoD, c.WF) ∧
+    (∃ s a, AL.get? (C02.runCmds [] demoD) 0 = some s ∧ AL.get? (C02.Spec.runCmds [] demoD) 0 = some a ∧
+      edgesD s = [([3], [1, 4]), ([4], [2]), ([1, 2], [3])] ∧ AL.keys a.edges = [([3], [1, 4]), ([4], [2]), ([1, 2], [3])]) ∧
+    (∃ s a, AL.get? (C02.runCmds [] demoD) 1 = some s ∧ AL.get? (C02.Spec.runCmds [] demoD) 1 = some a ∧
+      edgesD s = [([1, 2], [3]), ([3], [1])] ∧ AL.keys a.edges = [([1, 2], [3]), ([3], [1])]) :=
+  ⟨demoD_wf, ⟨_, _, rfl, rfl, by decide⟩, ⟨_, _, rfl, rfl, by decide⟩⟩
+
+/-- the directed line graph of the object in slot 0 of `demoD`, intersection, `s = 1`, unweighted: `0 → 1` (target
+`{1,4}` meets source `{4}`), `2 → 0`, no arc `1 → 0` -/
+example : ∃ s g, AL.get? (C02.runCmds [] demoD) 0 = some s ∧ directedLineGraphD s .intersection 1 false = some g ∧
+    AL.get? g.adj (0, 1) = some none ∧ AL.get? g.adj (2, 0) = some none ∧ AL.get? g.adj (1, 0) = none := by
+  have key : ∀ s a, AL.get? (C02.runCmds [] demoD) 0 = some s → AL.get? (C02.Spec.runCmds [] demoD) 0 = some a →
+      AL.keys a.edges = [([3], [1, 4]), ([4], [2]), ([1, 2], [3])] →
+      ∃ g, directedLineGraphD s .intersection 1 false = some g ∧
+        AL.get? g.adj (0, 1) = some none ∧ AL.get? g.adj (2, 0) = some none ∧ AL.get? g.adj (1, 0) = none := by
+    intro s a hs ha hk
+    obtain ⟨_, _, _, _, _, g, h1, _, h3⟩ := C10_link_directed_line demoD demoD_wf 0 s a hs ha .intersection 1 false
+    generalize AL.keys a.edges = es at hk h3
+    subst hk
+    have i01 : interSize [1, 4] [4] = 1 := by decide
+    have i20 : interSize [3] [3] = 1 := by decide
+    have i10 : interSize [2] [3] = 0 := by decide
+    refine ⟨g, h1, ?_, ?_, ?_⟩
+    · rw [h3]; exact ⟨by decide, by decide, by decide, by simp [distV, i01], by simp⟩
+    · rw [h3]; exact ⟨by decide, by decide, by decide, by simp [distV, i20], by simp⟩
+    · cases h : AL.get? g.adj (1, 0) with
+      | none => rfl
+      | some w =>
+        obtain ⟨_, _, _, hle, _⟩ := (h3 1 0 w).1 h
+        exfalso; simp [distV, i10] at hle; norm_num at hle
+  obtain ⟨g, hg⟩ := key _ _ rfl rfl (by decide)
+  exact ⟨_, g, rfl, hg⟩
